@@ -934,6 +934,16 @@ CLEANUP:
 static const char __sp[81] =
 	"================================================================================";
 
+/* a double-precision solve of a problem whose data exceed the double range can
+ * hand back inf/nan; GMP traps on converting those */
+static int dbl_array_is_finite (const double *a, int n)
+{
+	while (n-- > 0)
+		if (!(a[n] - a[n] == 0.0))
+			return 0;
+	return 1;
+}
+
 /* ========================================================================= */
 /** @brief print into screen (if enable) a message indicating that we have
  * successfully prove infeasibility, and save (if y is non
@@ -1347,6 +1357,9 @@ int QSexact_verify (
             CHECKRVALG(rval, CLEANUP);
             rval = dbl_QSget_pi_array(p_dbl, y_dbl);
             CHECKRVALG(rval, CLEANUP);
+            if( !dbl_array_is_finite(x_dbl, p_dbl->qslp->ncols) ||
+                !dbl_array_is_finite(y_dbl, p_dbl->qslp->nrows) )
+               goto CLEANUP;   /* no usable approximation: fall back to the exact test */
             x_mpq = QScopy_array_dbl_mpq(x_dbl);
             y_mpq = QScopy_array_dbl_mpq(y_dbl);
             
@@ -1506,6 +1519,13 @@ int QSexact_solver (mpq_QSdata * p_mpq,
 		y_dbl = dbl_EGlpNumAllocArray (p_dbl->qslp->nrows);
 		EGcallD(dbl_QSget_x_array (p_dbl, x_dbl));
 		EGcallD(dbl_QSget_pi_array (p_dbl, y_dbl));
+		if (!dbl_array_is_finite (x_dbl, p_dbl->qslp->ncols) ||
+				!dbl_array_is_finite (y_dbl, p_dbl->qslp->nrows))
+		{
+			MESSAGE(p_mpq->simplex_display ? 0: __QS_SB_VERB,
+							"double approximation is not finite, continuing in extended precision");
+			goto MPF_PRECISION;
+		}
 		x_mpq = QScopy_array_dbl_mpq (x_dbl);
 		y_mpq = QScopy_array_dbl_mpq (y_dbl);
 		dbl_EGlpNumFreeArray (x_dbl);
@@ -1557,6 +1577,12 @@ int QSexact_solver (mpq_QSdata * p_mpq,
 		{
 			MESSAGE(p_mpq->simplex_display ? 0 : __QS_SB_VERB, "double approximation"
 							" failed, code %d, continuing in extended precision\n", rval);
+			goto MPF_PRECISION;
+		}
+		if (!dbl_array_is_finite (y_dbl, p_dbl->qslp->nrows))
+		{
+			MESSAGE(p_mpq->simplex_display ? 0: __QS_SB_VERB,
+							"double approximation is not finite, continuing in extended precision");
 			goto MPF_PRECISION;
 		}
 		y_mpq = QScopy_array_dbl_mpq (y_dbl);
